@@ -4,11 +4,19 @@
     even only through the SET of candidates (order of enumeration irrelevant); the generic finder over a list IS the
     list finder of C08/C09; injected junk (paths that resolve to no Sid) changes no result of a path search and makes none fail;
     every path-search result is a Sid of the searched type that resolves from an existing matching path and matches the search.
-    The equality "tree search = list search over the same entities" itself is checked on the implementation (real trees,
-    both configurations, junk) and by correspondence with the file-system model: NOT a theorem (partial). *)
+    And the equality itself, for star searches (Search/TreeListProofs.v, TreeJunk.v): for every configuration passing
+    [paths_unambiguousb], every data set E of naturally typed concrete Sids materialised as a tree F in which nothing else
+    resolves to a Sid ([dataset_ok]), and every list of typed searches without ">" ([searches_ok], [pat_inj]):
+    the path search returns exactly the members of E of the searched type that glob-match the search; it is included in
+    the list search over the strings of E, what the list search finds in addition has another type than the search that
+    matched it (the list finder does not look at types), and the two are equal when the searched types cover the matches
+    ([types_covered]); junk of the three kinds (resolves to nothing / to an unsearched type / fails the field check) changes
+    no result and no failure.  The clause "no path component starts with a dot" of [dataset_ok] is necessary: see
+    [C11_hidden_name_differs].  ">" searches: [C11_finder_congruence] + C09 reduce them to the same candidate sets. *)
 From Coq Require Import List String Ascii Bool Arith Permutation Sorted.
 From Spil Require Import Base.Str Base.Dict Base.Outcome Regex.Re Conf.Conf Conf.Routing Conf.WF Sid.Sid
-  Search.Unfold Search.FindList Search.Finders Search.FindListProofs Search.FindersProofs FS.Fs Data.Data Data.VersionProofs.
+  Search.Unfold Search.FindList Search.Finders Search.FindListProofs Search.FindersProofs FS.Fs Data.Data Data.VersionProofs
+  Search.GlobProofs Sid.SidProofs Path.UnambiguousDefs Search.TreeListDefs Search.TreeGlob Search.TreeListProofs Search.TreeJunk.
 From SpilGen Require Hamlet.
 Import ListNotations.
 Local Open Scope string_scope.
@@ -45,3 +53,96 @@ Print Assumptions C11_paths_sound.
 Theorem C11_paths_one : forall Ld cfg F q r, paths_star Ld F cfg [q] = Ok r -> forall s, In s r <-> hit Ld cfg F q s.
 Proof. exact paths_star_spec_one. Qed.
 Print Assumptions C11_paths_one.
+
+(** ** tree search = list search over the same entities (star searches) *)
+
+Theorem C11_tree_search_spec : forall c Ld, load c = Some Ld -> wf_loadedb Ld = true -> paths_unambiguousb Ld = true ->
+  forall cfg E F, dataset_ok Ld cfg E F -> forall qs, searches_ok Ld cfg qs -> pat_inj Ld cfg qs ->
+  forall l, paths_star Ld F cfg qs = Ok l ->
+  forall s, In s l <-> exists e q, In e E /\ In q qs /\ s = s_string e /\ s_type e = s_type q /\
+                                   glob_rel (s_string q) (s_string e).
+Proof. exact tree_search_glob. Qed.
+Print Assumptions C11_tree_search_spec.
+
+Theorem C11_tree_vs_list : forall c Ld, load c = Some Ld -> wf_loadedb Ld = true -> paths_unambiguousb Ld = true ->
+  forall cfg E F, dataset_ok Ld cfg E F -> forall qs, searches_ok Ld cfg qs -> pat_inj Ld cfg qs ->
+  forall l l', paths_star Ld F cfg qs = Ok l -> star_search qs (map s_string E) = Ok l' ->
+  (forall s, In s l -> In s l') /\
+  (forall s, In s l' -> ~ In s l -> forall e q, In e E -> In q qs -> s = s_string e ->
+     glob_rel (s_string q) s -> s_type e <> s_type q).
+Proof. exact tree_vs_list. Qed.
+Print Assumptions C11_tree_vs_list.
+
+Theorem C11_tree_eq_list : forall c Ld, load c = Some Ld -> wf_loadedb Ld = true -> paths_unambiguousb Ld = true ->
+  forall cfg E F, dataset_ok Ld cfg E F -> forall qs, searches_ok Ld cfg qs -> pat_inj Ld cfg qs ->
+  forall l l', types_covered E qs -> paths_star Ld F cfg qs = Ok l -> star_search qs (map s_string E) = Ok l' ->
+  forall s, In s l <-> In s l'.
+Proof. exact tree_eq_list. Qed.
+Print Assumptions C11_tree_eq_list.
+
+(* the same with junk in the tree: paths that resolve to nothing, to a Sid of an unsearched type, or to one failing the field check *)
+Theorem C11_tree_eq_list_junk : forall c Ld, load c = Some Ld -> wf_loadedb Ld = true -> paths_unambiguousb Ld = true ->
+  forall cfg E F F', dataset_ok Ld cfg E F -> (forall p, In p (dkeys F) -> In p (dkeys F')) ->
+  forall qs, searches_ok Ld cfg qs -> pat_inj Ld cfg qs ->
+  (forall p, In p (dkeys F') -> ~ In p (dkeys F) ->
+     exists x, sid_factory Ld (FromPath p cfg) = Ok x /\
+       (sid_bool x = false \/ (forall q, In q qs -> s_type x <> s_type q \/ fields_match q x = false))) ->
+  forall l' l2, types_covered E qs -> paths_star Ld F' cfg qs = Ok l' -> star_search qs (map s_string E) = Ok l2 ->
+  forall s, In s l' <-> In s l2.
+Proof. exact tree_eq_list_junk. Qed.
+Print Assumptions C11_tree_eq_list_junk.
+
+Theorem C11_junk_no_fail : forall Ld cfg F F', (forall p, In p (dkeys F) -> In p (dkeys F')) ->
+  forall qs,
+  (forall p, In p (dkeys F') -> ~ In p (dkeys F) ->
+     exists x, sid_factory Ld (FromPath p cfg) = Ok x /\
+       (sid_bool x = false \/ (forall q, In q qs -> s_type x <> s_type q \/ fields_match q x = false))) ->
+  (exists ex, paths_star Ld F' cfg qs = Raise ex) <-> (exists ex, paths_star Ld F cfg qs = Raise ex).
+Proof. exact junk_no_fail. Qed.
+Print Assumptions C11_junk_no_fail.
+
+(* the glob of the file system on one path component is the glob relation of the list finder *)
+Theorem C11_fn_match_is_glob : forall p n, mem_c "/" n = false ->
+  (fn_match (S (String.length p + String.length n)) p n = true <-> glob_rel p n).
+Proof. exact fn_match_iff_glob. Qed.
+Print Assumptions C11_fn_match_is_glob.
+
+(** ** instances on the configuration of this run *)
+
+Definition mk (s : string) : sid := match Sid Hamlet.the_loaded s with Ok x => x | Raise _ => empty_sid end.
+Definition pth (x : sid) : string := match sid_path Hamlet.the_loaded x "" with Ok (Some p) => p | _ => "" end.
+Definition unf (s : string) : list sid :=
+  match unfold_search Hamlet.the_loaded s false false with Ok l => l | Raise _ => [] end.
+Definition E0 : list sid :=
+  [mk "hamlet/a/char/ophelia/model/v001/w/ma"; mk "hamlet/a/char/polonius/model/v002/w/ma"; mk "hamlet/a/char/ophelia"].
+Definition F0 : fs := map (fun e => (pth e, Dir)) E0.
+Definition F1 : fs := List.app F0 [(pth (mk "hamlet/a/char/ophelia") ++ "/notes.txt", File CEmpty);
+                                  (pth (mk "hamlet/a/char/ophelia") ++ "/rig", Dir)].
+Definition qs0 : list sid := unf "hamlet/a/char/*/**".
+
+(* the hypotheses of the theorems are satisfiable: data set, searches (three typed searches), junk *)
+Example C11_hypotheses_hold :
+  dataset_okb Hamlet.the_loaded "" E0 F0 = true /\
+  forallb (fun q => typed_searchb Hamlet.the_loaded q && search_okb Hamlet.the_loaded "" q) qs0 = true /\
+  pat_injb Hamlet.the_loaded "" qs0 = true /\ types_coveredb E0 qs0 = true /\ List.length qs0 = 3 /\
+  fs_subb F0 F1 = true /\ junk_kindsb Hamlet.the_loaded "" F0 F1 qs0 = true.
+Proof. vm_compute. repeat split; reflexivity. Qed.
+Print Assumptions C11_hypotheses_hold.
+
+Example C11_instance_results :
+  paths_star Hamlet.the_loaded F1 "" qs0 = Ok ["hamlet/a/char/ophelia/model/v001/w/ma"; "hamlet/a/char/polonius/model/v002/w/ma"] /\
+  star_search qs0 (map s_string E0) = Ok ["hamlet/a/char/ophelia/model/v001/w/ma"; "hamlet/a/char/polonius/model/v002/w/ma"].
+Proof. vm_compute. split; reflexivity. Qed.
+Print Assumptions C11_instance_results.
+
+(* the clause "no path component starts with a dot" is necessary: glob's "*" does not match a leading ".", so an asset
+   named ".ophelia", present in the tree, is found by the list finder and not by the tree finder (observation O2 of DESIGN.md:
+   outside the value sets of the property, like D26) *)
+Example C11_hidden_name_differs :
+  let Eh := [mk "hamlet/a/char/.ophelia/model/v001/w/ma"; mk "hamlet/a/char/ophelia/model/v001/w/ma"] in
+  let Fh := map (fun e => (pth e, Dir)) Eh in
+  let qh := unf "hamlet/a/char/*/model/*/w/ma" in
+  paths_star Hamlet.the_loaded Fh "" qh = Ok ["hamlet/a/char/ophelia/model/v001/w/ma"] /\
+  star_search qh (map s_string Eh) = Ok ["hamlet/a/char/.ophelia/model/v001/w/ma"; "hamlet/a/char/ophelia/model/v001/w/ma"].
+Proof. vm_compute. split; reflexivity. Qed.
+Print Assumptions C11_hidden_name_differs.
